@@ -53,7 +53,54 @@ impl Rng {
         }
         weights.len() - 1
     }
+    /// Content of `len` bytes. One time in four the content is *shaped* instead of uniformly random: all zeros,
+    /// a zero tail / zero head (block aligned for big contents), one block repeated, or one byte repeated —
+    /// content-dependent defects (sparse-copy shortcuts, run-length tricks, terminator scans) need such data.
     pub fn bytes(&mut self, len: usize, utf8_only: bool) -> Vec<u8> {
+        let mut v = self.raw_bytes(len, utf8_only);
+        if len >= 2 && self.chance(1, 4) {
+            match self.below(5) {
+                0 => v.iter_mut().for_each(|b| *b = 0),
+                1 => {
+                    let cut = if len >= 8192 { self.below(len / 4096) * 4096 } else { self.below(len) };
+                    v[cut..].iter_mut().for_each(|b| *b = 0);
+                }
+                2 => {
+                    let cut = if len >= 8192 { ((1 + self.below(len / 4096)) * 4096).min(len) } else { 1 + self.below(len - 1) };
+                    v[..cut].iter_mut().for_each(|b| *b = 0);
+                }
+                3 => {
+                    let blk = if len >= 8192 { 4096 } else { 1 + self.below((len / 2).max(1)) };
+                    for i in blk..len {
+                        v[i] = v[i % blk];
+                    }
+                }
+                _ => {
+                    let fill = if utf8_only { b'\n' } else { 0xFF };
+                    v.iter_mut().for_each(|b| *b = fill);
+                }
+            }
+        }
+        v
+    }
+    /// Block-structured content: `n` blocks of `block` bytes, each independently all-zero or random (the last one
+    /// zero half of the time) — exact multiples of the usual buffer sizes with zero runs at block boundaries.
+    pub fn block_bytes(&mut self) -> Vec<u8> {
+        let block = *self.pick(&[512usize, 4096, 8192, 8192, 65536]);
+        let n = if block == 65536 { self.range(1, 2) } else { self.range(1, 5) };
+        let mut v = Vec::with_capacity(n * block);
+        for i in 0..n {
+            let zero = if i + 1 == n { self.chance(1, 2) } else { self.chance(1, 3) };
+            if zero {
+                v.extend(std::iter::repeat(0u8).take(block));
+            } else {
+                v.extend(self.raw_bytes(block, false));
+            }
+        }
+        v
+    }
+    fn raw_bytes(&mut self, len: usize, utf8_only: bool) -> Vec<u8> {
+
         let mut v = Vec::with_capacity(len);
         if utf8_only {
             const AL: &[u8] = b"abcdefghijklmnopqrstuvwxyz0123456789 \n";
